@@ -20,7 +20,10 @@ CLAIMED = {
         "opcode of the switch (execOpcode_refines: 114 opcode lemmas incl. signature opcodes, FindAndDelete, BIP66 DER, the compressed "
         "condition stack), whole-script stepping refines the specification's evaluation state by state with the same error at the same "
         "operation (runOps_refines, C01_trace; C01_trace_base discharges the checker hypothesis for the transaction-less sessions the check runs). The model is tied to the C++ by a three-way differential run (implementation, model, "
-        "spec) after every executed operation: spec-guided deep scripts, every opcode x boundary operands, flag toggles, all scripts of <=2 bytes.",
+        "spec) after every executed operation: spec-guided deep scripts, every opcode x boundary operands, flag toggles, all scripts of <=2 bytes, near-P2SH shapes, "
+        "two scripts in a row. What the user sees of the state — the commands stack / altstack / vfexec — is modelled too (C01Display): exact text, and faithfulness "
+        "(readStack (printStack st) = some st; equal displays imply equal stacks and equal nesting up to what the compressed condition stack stores), composed with the "
+        "refinement over step/rewind histories (C01_display_trace, C01_display_history); the real fn_stack/fn_altstack/fn_vfexec output is compared after every command.",
         "DESIGN.md section 6 (C01)", "Lean 4 refinement proof (model ≈ spec per opcode, induction over the script) + per-step differential correspondence"),
     "C02": claim(
         "Lean theorems for every transaction, input index, amount, script code, hash type, annex and code-separator position: the legacy, BIP143 and "
@@ -150,7 +153,10 @@ CLAIMED = {
         "establish (setup_fresh). Correspondence: start-up code of btcdeb.cpp main run in-process with commands played "
         "through the real fn_step/fn_rewind/fn_print and their printed output parsed, cross-checked against the real binary under a pseudo-terminal; three-way "
         "(implementation, model, execution-plan spec) after every command: all opcodes and push encodings incl. 509-520 byte pushes, complete {step,rewind} trees, "
-        "every spend kind, path lengths 0..4 (7, 128), doc/txs, malformed and failing sessions, regression cases of the repaired defects. The two-column display is not modelled.",
+        "every spend kind, path lengths 0..4 (7, 128), doc/txs, malformed and failing sessions, regression cases of the repaired defects. The two-column step display (print_dualstack) is modelled with its two static column widths as explicit state (C12Dual): "
+        "for every state of every session the left column is exactly the operations still to execute (first line = the next step, nothing at the end: C12_dual_left_session, "
+        "C12_dual_first_is_next_op, C12_dual_nothing_pending_at_end), the right column the stack top first, cells shown in full up to 66 characters else 63 + '...', widths "
+        "monotone, rows aligned; the real print_dualstack output is compared after every command in one process, plus a Python layout oracle and pty sessions.",
         "DESIGN.md section 6 (C12)", "Lean 4 invariant proof over command histories (listing = executed prefix ++ plan of the rest) + in-process and pty differential correspondence"),
     "C13": claim(
         "Lean theorems for all byte strings / transactions: parse then serialise reproduces the identical bytes (C13_parse_ser), serialise then "
@@ -188,13 +194,18 @@ CLAIMED = {
         "safety of the C++ itself is OBSERVED, not proved — every input stream of the other checks plus structure-aware mutations of them (truncation, "
         "length-field corruption, oversized counts, out-of-range indices, nesting) runs on AddressSanitizer + UndefinedBehaviorSanitizer builds of the tree "
         "(native harness and the three binaries under pipes and ptys, complete {step, rewind, exec} command trees on failing scripts), and a sample under "
-        "valgrind memcheck; any signal, sanitizer report or escaped exception is a violation with the input as replay.",
+        "valgrind memcheck; any signal, sanitizer report or escaped exception is a violation with the input as replay. The interactive line layer kerl.c is modelled "
+        "function by function with every buffer access explicit (C15Kerl): whole sessions in both build configurations, any sequence of lines / stdin bytes / history "
+        "file content, have no abnormal outcome up to the int size bound (C15_kerl_run_safe, C15_kerl_run_raw_safe, C15_kerl_historyLoad, C15_kerl_makeArgcv_safe); the real "
+        "kerl functions run in-process on plain and sanitizer builds against that model, plus pty sessions on btcdeb with and without readline.",
         "DESIGN.md section 6 (C15)", "Lean 4 proofs of unreachability of the modelled crash sites (invariants over reachable session states, checker totality) + sanitizer-build execution of all streams and mutations"),
     "C16": claim(
         "Lean theorems: exec never changes position, script, history, flags or signature version (C16_position_untouched, by the frame lemma "
         "over every opcode), each applied operation is one StepScript and therefore the specification's instruction (C16_first_op via step_refines), "
         "unknown words are refused before execution. Correspondence: every token of the vocabulary at every prefix of the session family, random "
-        "operation lists, compared with the implementation and with the spec executing the tokens on the abstracted pre-state.",
+        "operation lists, exec after a failed step, compared with the implementation and with the spec executing the tokens on the abstracted pre-state. From the typed line to "
+        "the operations (C16Kerl): the argv the command receives is exactly the words of the line (quotes, escapes, continuation lines: C16_kerl_argv_single/_continued), "
+        "`exec a b c` reaches the exec model with [a,b,c] (C16_kerl_exec_line), dispatch is by exact command name; OP_xNN tokens denote byte NN for every NN (C16_exec_opx).",
         "DESIGN.md section 6 (C16)", "Lean 4 proof (frame lemma + step refinement) + differential correspondence on session prefixes"),
     "C17": claim(
         "Lean theorems: each of the 15 re-enabled opcodes refines the specified function on every stack (C17_computes), never ends abnormally "
